@@ -462,6 +462,14 @@ fn history(case: &mut Case) -> Result<(), String> {
     Ok(())
 }
 
+fn sequences_pair(case: &mut Case, a: f64, b: f64, n: usize) -> Result<(), String> {
+    let p = case.src.f64_in(0.25, 4.0);
+    case.class("sequences with end points a few ulps apart");
+    case.mark_nontrivial();
+    case.describe(|| format!("linspace/powspace a={:e} b={:e} (bits {:#x}, {:#x}) n={} p={}", a, b, a.to_bits(), b.to_bits(), n, p));
+    check_sequences(a, b, n, p)
+}
+
 fn sequences(case: &mut Case) -> Result<(), String> {
     let n = case.src.urange(2, 64);
     let a = match case.src.below(4) {
@@ -476,10 +484,35 @@ fn sequences(case: &mut Case) -> Result<(), String> {
     if b == a {
         b = a + 1.0;
     }
+    // end points only a few units in the last place apart (or equal): the interpolation formula must stay monotone
+    let close = case.src.below(4) == 0;
+    if close {
+        let base = if a == 0.0 { 1.1 } else { a };
+        let j = case.src.below(300) as i64 * if case.src.coin() { 1 } else { -1 };
+        let bits = base.to_bits() as i64;
+        b = f64::from_bits((bits + if base > 0.0 { j } else { -j }) as u64);
+        if a == 0.0 {
+            // (a = 0 has no neighbours of comparable size: use the pair (base, b) instead)
+            return sequences_pair(case, base, b, n);
+        }
+    }
     let p = case.src.f64_in(0.25, 4.0);
-    case.class(format!("sequences {}", if b > a { "increasing" } else { "decreasing" }));
+    if close {
+        case.class(format!("sequences with end points {} ulps apart", if a == b { "0" } else { "1..299" }));
+    }
+    case.class(format!("sequences {}", if b > a { "increasing" } else if b < a { "decreasing" } else { "constant" }));
     case.mark_nontrivial();
-    case.describe(|| format!("linspace/powspace a={:e} b={:e} n={} p={}", a, b, n, p));
+    case.describe(|| format!("linspace/powspace a={:e} b={:e} (bits {:#x}, {:#x}) n={} p={}", a, b, a.to_bits(), b.to_bits(), n, p));
+    check_sequences(a, b, n, p)?;
+    // random(): n elements in [0,1)
+    let r = Vector::<f64>::random(n);
+    if r.size() != n || r.vec.iter().any(|x| !(*x >= 0.0 && *x < 1.0)) {
+        return Err(format!("random({}): {:?}", n, r.vec));
+    }
+    Ok(())
+}
+
+fn check_sequences(a: f64, b: f64, n: usize, p: f64) -> Result<(), String> {
     let scale = a.abs().max(b.abs());
     for (name, v) in [("linspace", Vector::<f64>::linspace(a, b, n)), ("powspace", Vector::<f64>::powspace(a, b, n, p))] {
         if v.size() != n {
@@ -517,11 +550,6 @@ fn sequences(case: &mut Case) -> Result<(), String> {
             }
         }
     }
-    // random(): n elements in [0,1)
-    let r = Vector::<f64>::random(n);
-    if r.size() != n || r.vec.iter().any(|x| !(*x >= 0.0 && *x < 1.0)) {
-        return Err(format!("random({}) = {:?}", n, r.vec));
-    }
     Ok(())
 }
 
@@ -534,7 +562,7 @@ impl Prop for C15 {
          sum_slice/product_slice for every (start,end) when n <= 12 and random ranges beyond, sum/product, abs, norm_1, against a Vec model, exactly; (3) Vector<Complex<Rat>> conj/real and Complex<f64> norm_inf; \
          (4) f64 norms with |x| in {0} U [1e-100,1e100] (p-norm: [1e-30,1e30], p in [1,8]) against double-double, and the norm laws (non-negativity, homogeneity, triangle inequality, inf <= 2 <= 1 and inf <= p <= 1) with a few-ulp slack, f64*Vector; p is an integer, continuous in [1,8], or 1+d / 2+-d with d = 1e-12..1e-5; (4b) norm_inf and norm_1 over the whole finite range (|x| in 1e-300..1e300, all tiny / all huge / mixed); \
          (5) histories of <= 40 edits (push, push_front, insert, pop, swap, resize, assign, clear, sort, sort_by, find, index write, clone) against a Vec model compared after every step; (6) linspace/powspace with 2..=64 points: \
-         first element exactly a, last within 8 eps*max(|a|,|b|) of b, weakly monotone, elements within rounding of the defining formula; random(n) in [0,1). sum/product/norm_inf/find on the empty vector are not asserted. \
+         end points from scale menus and, one case in four, only 0..299 ulps apart; first element exactly a, last within 8 eps*max(|a|,|b|) of b, weakly monotone, elements within rounding of the defining formula; random(n) in [0,1). sum/product/norm_inf/find on the empty vector are not asserted. \
          Non-trivial: history of >= 6 steps with a size-changing step before an index-dependent one; reductions over a strict sub-range of a vector of length >= 3; every sequence case. distinct = distinct decoded choice sequence."
             .into()
     }
